@@ -220,6 +220,22 @@ def _import_lib():
     return simple_ddl_parser
 
 
+class _NoHooks:
+    """stands in for simple_ddl_parser._verif when the guarded instrumentation is not in the tree: nothing is ever emitted"""
+    ENABLED = False
+    sink = None
+    scheduler = None
+
+
+def hooks():
+    _import_lib()
+    try:
+        from simple_ddl_parser import _verif
+        return _verif
+    except ImportError:
+        return _NoHooks
+
+
 def _do_parse(task):
     text, ctor, run = task
     lib = _import_lib()
